@@ -54,4 +54,21 @@ inductive Reach : State → State → Prop
 def initial (ver : Pid → Ver) (bin : Bin) (stamp : Option Ver) : State :=
   { owner := none, bin := bin, stamp := stamp, pc := fun _ => .idle, ver := ver }
 
+/-! ### the stamp file (internal/linker: getCurrentVersion, linkerStamp, checkVersion, writeVersion) -/
+
+abbrev Bytes := List UInt8
+
+def decimal (n : Nat) : Bytes := (toString n).toList.map fun c => c.toNat.toUInt8
+
+/-- `linkerStamp`: "<goVersion> <patchesVer>\n<size of the binary>\n" -/
+def stampFor (goVersion patchesVer : Bytes) (size : Nat) : Bytes :=
+  goVersion ++ [32] ++ patchesVer ++ [10] ++ decimal size ++ [10]
+
+/-- the decision taken under the lock: `checkVersion(...) && fileExists(...)`; `stamp = none`: no version file,
+`binSize = none`: no linker binary -/
+def reusable (stamp : Option Bytes) (binSize : Option Nat) (goVersion patchesVer : Bytes) : Bool :=
+  match stamp, binSize with
+  | some st, some sz => st == stampFor goVersion patchesVer sz
+  | _, _ => false
+
 end GV.Protocol
